@@ -1,0 +1,49 @@
+//go:build verif
+// +build verif
+
+package pipe
+
+import "github.com/logrange/range/pkg/records/journal"
+
+// Verification exports for property C07 (stored state survives restart). Pure additions, tag `verif` only.
+
+// VerifC07PipeFileName is persister.pipeFileName for a persister rooted at dir.
+func VerifC07PipeFileName(dir, name string) string { return newPersister(dir).pipeFileName(name) }
+
+// VerifC07Positions returns the per-source synced positions of the pipe (a copy of ppipe.partitions[*].Pos).
+func (s *Service) VerifC07Positions(name string) (map[string]journal.Pos, bool) {
+	s.lock.Lock()
+	pp, ok := s.ppipes[name]
+	s.lock.Unlock()
+	if !ok {
+		return nil, false
+	}
+	res := map[string]journal.Pos{}
+	pp.lock.Lock()
+	for src, pd := range pp.partitions {
+		res[src] = pd.Pos
+	}
+	pp.lock.Unlock()
+	return res, true
+}
+
+// VerifC07CaughtUp tells whether every pipe has copied everything it was notified about (Pos == LastKnwnPos).
+func (s *Service) VerifC07CaughtUp() bool {
+	s.lock.Lock()
+	pps := make([]*ppipe, 0, len(s.ppipes))
+	for _, pp := range s.ppipes {
+		pps = append(pps, pp)
+	}
+	s.lock.Unlock()
+	for _, pp := range pps {
+		pp.lock.Lock()
+		for _, pd := range pp.partitions {
+			if pd.Pos.Less(pd.LastKnwnPos) {
+				pp.lock.Unlock()
+				return false
+			}
+		}
+		pp.lock.Unlock()
+	}
+	return true
+}
